@@ -136,7 +136,10 @@ func c03IDs(out string) []string {
 	return ids
 }
 
-var c03Consumers = []string{"vif", "velseif", "neg", "vshow", "bind", "class"}
+var c03Consumers = []string{"vif", "velseif", "neg", "vshow", "bind", "class", "notnot", "andt", "negandt", "orf", "tern", "bindneg"}
+
+// consumers that put the value inside a compound expression
+var c03InExpr = map[string]bool{"notnot": true, "andt": true, "negandt": true, "orf": true, "tern": true, "bindneg": true}
 
 func c03TruthTpl(consumer, x string) string {
 	switch consumer {
@@ -146,6 +149,18 @@ func c03TruthTpl(consumer, x string) string {
 		return fmt.Sprintf(`<b v-if="f0">n</b><i id="m" v-else-if="%s">y</i>`, x)
 	case "neg":
 		return fmt.Sprintf(`<i id="m" v-if="!%s">y</i>`, x)
+	case "notnot": // operands of !, && and || and the condition of ?: are judged by the same rule
+		return fmt.Sprintf(`<i id="m" v-if="!!%s">y</i>`, x)
+	case "andt":
+		return fmt.Sprintf(`<i id="m" v-if="%s && t1">y</i>`, x)
+	case "negandt":
+		return fmt.Sprintf(`<i id="m" v-if="!%s && t1">y</i>`, x)
+	case "orf":
+		return fmt.Sprintf(`<i id="m" v-if="%s || f0">y</i>`, x)
+	case "tern":
+		return fmt.Sprintf(`<i id="m" :data-x="%s ? 'y' : ''">y</i>`, x)
+	case "bindneg":
+		return fmt.Sprintf(`<i id="m" :data-x="!%s">y</i>`, x)
 	case "vshow":
 		return fmt.Sprintf(`<i id="m" v-show="%s">y</i>`, x)
 	case "bind":
@@ -159,7 +174,7 @@ func c03TruthTpl(consumer, x string) string {
 // c03Observe renders one consumer and reports whether it treated the value as truthy.
 func c03Observe(ctx *core.Ctx, consumer, reach string, tv truthVal) (truthy bool, err error, out string) {
 	x := "x"
-	data := map[string]any{"f0": false}
+	data := map[string]any{"f0": false, "t1": true}
 	switch reach {
 	case "var":
 		if tv.Name != "missing" {
@@ -190,7 +205,7 @@ func c03Observe(ctx *core.Ctx, consumer, reach string, tv truthVal) (truthy bool
 		x = "x"
 		ctx.Eval(1)
 		tpl := c03TruthTpl(consumer, x)
-		out, err = renderString(tpl, c03RootPtr{})
+		out, err = renderString(tpl, c03RootPtr{T1: true})
 		if err != nil {
 			return false, err, out
 		}
@@ -215,15 +230,28 @@ type c03Tagged struct {
 type c03RootPtr struct {
 	X  *vStruct `json:"x"`
 	F0 bool     `json:"f0"`
+	T1 bool     `json:"t1"`
 }
 
 func c03Judge(consumer, out string) (truthy bool, err error, o string) {
 	m := htmlcmp.ByID(htmlcmp.Parse(out), "m")
 	switch consumer {
-	case "vif", "velseif":
+	case "vif", "velseif", "notnot", "andt", "orf":
 		return m != nil, nil, out
-	case "neg":
+	case "neg", "negandt":
 		return m == nil, nil, out
+	case "bindneg":
+		if m == nil {
+			return false, fmt.Errorf("element lost"), out
+		}
+		_, ok := htmlcmp.Attr(m, "data-x")
+		return !ok, nil, out
+	case "tern":
+		if m == nil {
+			return false, fmt.Errorf("element lost"), out
+		}
+		_, ok := htmlcmp.Attr(m, "data-x")
+		return ok, nil, out
 	case "vshow":
 		if m == nil {
 			return false, fmt.Errorf("element lost"), out
@@ -296,6 +324,10 @@ func (c *c03Case) Run(ctx *core.Ctx) {
 		obs := map[string]bool{}
 		var truthyBy, falsyBy []string
 		for _, cons := range c03Consumers {
+			if c03InExpr[cons] && (c.Reach == "tagfield" || c.Reach == "dotindex" || c.Reach == "hyphen") {
+				// these paths are spellings of the stack's path syntax, not of the expression language
+				continue
+			}
 			t, err, out := c03Observe(ctx, cons, c.Reach, tv)
 			if err != nil {
 				ctx.Violation("truth-error", cons, tv.Kind, fmt.Sprintf("%s %s via %s: %v (out %q)", c.Val, cons, c.Reach, err, out))
@@ -333,7 +365,7 @@ func init() {
 		ID:    "C03",
 		Level: "exploration",
 		Rule: "chain part: every sibling list up to the bound over {plain, v-if(T/F), v-else-if(T/F), v-else, v-for over an empty / one-element list, v-else / v-else-if members that are themselves loops} x separators {none, whitespace, comment, both} x placements {top, div, v-for x2, <template> members, nested in a taken branch, deep}; oracle: reference chain evaluator gives the ordered marker list. " +
-			"truth part: 46 Go values x 6 ways of reaching them (variable, nested key, loop item, struct field by JSON tag, dotted index, hyphenated key) x 6 consumers (v-if, v-else-if, !x, v-show, :attr, :class object); oracles: documented table and agreement between consumers. non-trivial = chain of >=2 members with defined semantics, or any truth case",
+			"truth part: 46 Go values x 6 ways of reaching them (variable, nested key, loop item, struct field by JSON tag, dotted index, hyphenated key) x 12 consumers (v-if, v-else-if, !x, v-show, :attr, :class object, !!x, x && true, !x && true, x || false, x ? : in a binding, :attr with !x); oracles: documented table and agreement between consumers. non-trivial = chain of >=2 members with defined semantics, or any truth case",
 		Bounds:      map[string]string{"quick": "sibling lists of length <= 5", "thorough": "sibling lists of length <= 6"},
 		Assumptions: []string{"what an orphan v-else/v-else-if renders, and members after a v-else, are unconstrained (only plain siblings are checked there)", "NaN and the string \"false\" are checked for uniformity only"},
 		Decode:      core.DecodeAs[c03Case](),
